@@ -204,6 +204,23 @@ func OriginAtoms() []OriginAtom {
 		OriginAtom{Value: "https://xn--a-zhc.com", Malformed: true},
 		OriginAtom{Value: "https://1a.xn--4dbcd.com", Malformed: true},
 		OriginAtom{Value: "https://*.xn--a-0hc.com:*", Malformed: true},
+		// ports that a lenient number parser would take (sign, radix prefix, exponent, blanks, other digits)
+		OriginAtom{Value: "https://example.com:+8443", Malformed: true},
+		OriginAtom{Value: "https://*.example.com:+9090", Malformed: true},
+		OriginAtom{Value: "https://example.com:+0", Malformed: true},
+		OriginAtom{Value: "https://example.com:-1", Malformed: true},
+		OriginAtom{Value: "https://example.com:-0", Malformed: true},
+		OriginAtom{Value: "https://example.com:0x50", Malformed: true},
+		OriginAtom{Value: "https://example.com:1e3", Malformed: true},
+		OriginAtom{Value: "https://example.com: 8443", Malformed: true},
+		OriginAtom{Value: "https://example.com:8443 ", Malformed: true},
+		OriginAtom{Value: "https://example.com:8_443", Malformed: true},
+		OriginAtom{Value: "https://example.com:٨٤٤٣", Malformed: true},
+		OriginAtom{Value: "https://example.com:８４４３", Malformed: true},
+		OriginAtom{Value: "https://example.com:+65535", Malformed: true},
+		OriginAtom{Value: "https://example.com:4294967739", Malformed: true}, // 2^32 + 443
+		OriginAtom{Value: "https://example.com:65979", Malformed: true},      // 2^16 + 443
+		OriginAtom{Value: "https://example.com:00008443", Malformed: true},
 	)
 	return valid
 }
@@ -334,7 +351,9 @@ func RequestHeaderTable() []NameAtom {
 		}
 		out = append(out, NameAtom{Value: n, Reason: r})
 	}
-	for _, n := range []string{"x-\u017f", "author\u0131zation", "coo\u212aie", "\u017fec-x", "ho\u017ft"} {
+	for _, n := range []string{"x-\u017f", "author\u0131zation", "coo\u212aie", "\u017fec-x", "ho\u017ft",
+		// runes that Unicode lower-casing maps to ASCII letters (Kelvin sign, dotted capital I): not token characters
+		"X-Api-\u212aey", "x-api-\u212aey", "\u212a", "Author\u0130zation", "X-\u0130d", "x-tra\u212a"} {
 		out = append(out, NameAtom{Value: n, Reason: "invalid"})
 	}
 	return append(out, byteNames("x-", "-y")...)
